@@ -300,7 +300,7 @@ func runProfile(t *testing.T, prop, profile string) {
 			r.Class("excluded:restore-did-not-complete", 1)
 			kept := o.viol[:0:0]
 			for _, v := range o.viol {
-				if v.Sig == "C20/R5/restore-performed-during-a-leadership-transfer" {
+				if v.Sig == "C20/R5/restore-performed-during-a-leadership-transfer" || v.Sig == "C20/R5/refused-restore-aborted-calls-in-flight" {
 					kept = append(kept, v)
 				}
 			}
